@@ -269,8 +269,9 @@ func checkC03Conserve(c *Ctx, n int) {
 			case x < 6:
 				toks = append(toks, tok{"W", "--"})
 			case x < 7 && bits&flags.IgnoreUnknown != 0:
-				u := []string{"--zz-unk", "--zz-unk=1", "-Z", "-Z=1", "--zz=--"}[r.Intn(5)]
-				if !lc.declared["-Z"] && !lc.declared["--zz-unk"] && !lc.declared["--zz"] {
+				// (among them tokens whose NAME is empty or begins with the name/argument delimiter)
+				u := []string{"--zz-unk", "--zz-unk=1", "-Z", "-Z=1", "--zz=--", "-=", "-=x", "-=5", "--=x"}[r.Intn(9)]
+				if !lc.declared["-Z"] && !lc.declared["--zz-unk"] && !lc.declared["--zz"] && !lc.declared["-="] && !lc.declared["--"] {
 					toks = append(toks, tok{"U", u})
 				}
 			case x < 8 && len(lc.chain) >= 2:
